@@ -170,6 +170,8 @@ fn run_tree(bytes: &[u8], ctx: &Ctx) -> CaseInfo {
     cfg.max_depth = 2;
     cfg.kinds.push(Kind::Wrap);
     cfg.kinds.push(Kind::Wrap);
+    // a second type with the same identifier and shape as Pair, from another module
+    cfg.kinds.push(Kind::Pair2);
     let n = 1 + s.below(5);
     let mut goals = vec![];
     for _ in 0..n {
